@@ -173,8 +173,9 @@ def run(res, args):
             if len(s_el) == len(d_el):
                 stats['namespaces_compared'] = stats.get('namespaces_compared', 0) + 1
                 for sn, (dn, pg) in zip(s_el, d_el):
-                    # (a namespace the language does not know is no statement about code pages: names are then resolved by name alone)
-                    if b'|' in sn and pg is not None and pg in nsmap and sn.rsplit(b'|', 1)[0] in nsmap.values() and sn.rsplit(b'|', 1)[0] != nsmap[pg]:
+                    # (a namespace the language does not know, or a name that namespace's code page does not have, leaves only resolution by name)
+                    if b'|' in sn and pg is not None and pg in nsmap and sn.rsplit(b'|', 1)[0] in nsmap.values() and sn.rsplit(b'|', 1)[0] != nsmap[pg] and \
+                            any(bytes.fromhex(r[0]) == docmp.local(sn) and nsmap.get(r[1]) == sn.rsplit(b'|', 1)[0] for r in norm.tags):
                         viol.append((i, f'element {docmp.local(sn)} is in namespace {sn.rsplit(b"|", 1)[0]} in the source but encoded in code page {pg} ({nsmap[pg]})', ''))
                         break
     for prop, kid, what in sorted(seen_known):
